@@ -4,6 +4,7 @@ import CprocVerif.Lemmas.InitParse2
 import CprocVerif.Lemmas.InitRefNoSw
 import CprocVerif.Lemmas.InitRefTopU
 import CprocVerif.Lemmas.InitGeoTop
+import CprocVerif.Lemmas.InitAuto
 
 /-!
 # C07 — initialised objects contain exactly the specified initial image
@@ -639,5 +640,80 @@ theorem static_image_correct_counterexample : ¬ static_image_correct_full := by
       rw [hm, hr]
       simp only []
       rw [this]
+
+/-! ## (f) automatic objects: `funcinit` leaves the same image in memory
+
+`Model/InitAuto.lean` models `qbe.c:funcinit`/`zero` on the bytes of the object: zero-filling of the
+gaps (`offset`/`max` bookkeeping), element stores of string literals, `funcstore` with the
+read-modify-write of bit-fields after zero-filling their storage unit. -/
+
+open CprocVerif.InitAuto
+
+/-- The loop of `funcinit`, for ANY list sorted by bit position without overlap and ANY previous
+content of the memory: afterwards the object holds the static image, byte for byte (padding and
+array tails zero). -/
+theorem funcinit_image_correct {size : Nat} {l : List Init} {garb : Mem} (hlen : garb.length = size)
+    (hs : l.Pairwise (fun a b => a.hi ≤ b.lo)) (hw : ∀ i ∈ l, Wf size i) : funcinit size garb l = image size l :=
+  funcinit_image hlen hs hw
+
+theorem pairwise_of_flatListB : ∀ {l : List Init}, flatListB l = true → l.Pairwise (fun a b => a.hi ≤ b.lo) := by
+  intro l
+  induction l with
+  | nil => intro _; exact List.Pairwise.nil
+  | cons a l ih =>
+    intro h
+    simp only [flatListB, Bool.and_eq_true, List.all_eq_true, decide_eq_true_eq] at h
+    exact List.Pairwise.cons h.1 (ih h.2)
+
+/-- **`auto_image_correct`** — "an automatic object given the same initialiser holds the same
+member values at run time": for every `(t, inc, i)` in the decidable class `autoClass` (`imgClass`,
+and no element patched inside an earlier string literal — the recorded finding
+`auto-zero-after-patch`), whatever the stack held before, the memory after the model of `funcinit`
+on the list `parseinit` built is the image C11 prescribes, which is also what `emitdata` prints
+for the static object. -/
+theorem auto_image_correct {t : Ty} {inc : Bool} {i : Ini} {st : St} {r : InitRef.Result} {garb : Mem}
+    (hm : parseinit t inc i = .ok st) (hr : InitRef.ref t inc i = .ok r) (hc : autoClass t inc i = true)
+    (hlen : garb.length = st.top) :
+    funcinit st.top garb (st.log.foldl applyEv []) = image r.size r.writes ∧
+      funcinit st.top garb (st.log.foldl applyEv []) = bytes (emitItems st.top (st.log.foldl applyEv [])) := by
+  simp only [autoClass, hm, Bool.and_eq_true] at hc
+  obtain ⟨hic, hflat⟩ := hc
+  obtain ⟨hrc, hinc, hlay, hmode, hso, hcv⟩ := imgClass_parts hic
+  subst hinc
+  have hwf : tyWf t = true := by
+    simp only [refClass, Bool.and_eq_true] at hrc
+    simpa [tyWfFor] using hrc.1.1
+  obtain ⟨hok, hw⟩ := parseinit_laminar hm hwf hlay hmode hso hcv
+  obtain ⟨_, hmem, hcell⟩ := foldl_applyEv (l := []) hok List.Pairwise.nil (fun _ h => by simp at h)
+    (fun _ h => by simp at h)
+  have hwl : ∀ x ∈ st.log.foldl applyEv [], Wf st.top x := by
+    intro x hx
+    rcases hmem x hx with h | h
+    · simp at h
+    · exact hw x h
+  have h1 := funcinit_image hlen (pairwise_of_flatListB hflat) hwl
+  have h2 : image st.top (st.log.foldl applyEv []) = image st.top (st.log.map evWrite) :=
+    ImgEq.image (fun j => by rw [hcell j]; rfl) _
+  have h3 := static_image_correct hm hr hic
+  have h4 := (emitdata_image_ev hok hw).2
+  refine ⟨?_, ?_⟩
+  · rw [h1, h2, ← h4]; exact h3.2
+  · rw [h1, h2, h4]
+
+/-- Without the flat-list hypothesis the statement is false (the recorded finding
+`auto-zero-after-patch`): `struct {char s[8]; int x;} v = {"abcdefgh", .s[5] = 'x', .x = 1};` — after
+the element patch `funcinit` zero-fills from the end of the patched element and wipes `gh`. -/
+def exAZ : Ty := .agg false 4 12 (.cons (some "s") (.array 8 tChar) 0 0 0 (.cons (some "x") tInt 8 0 0 .nil))
+def exAZI : Ini := .list (.cons [] (.expr (.str 1 1 [97, 98, 99, 100, 101, 102, 103, 104, 0]))
+  (.cons [.fld "s", .idx 5] (numI 120) (.cons [.fld "x"] (numI 1) .nil)))
+
+def autoM (t : Ty) (i : Ini) : Option (List Cell) :=
+  match parseinit t false i with
+  | .ok st => some (funcinit st.top (List.replicate st.top (.byte 0xa5)) (st.log.foldl applyEv []))
+  | .error _ => none
+
+theorem auto_image_counterexample :
+    imgClass exAZ false exAZI = true ∧ autoClass exAZ false exAZI = false ∧ autoM exAZ exAZI ≠ imgR exAZ exAZI := by
+  decide +kernel
 
 end CprocVerif.C07
